@@ -6,6 +6,8 @@ Cromer-Mann x-ray form factors), on the public table and on private tables whose
 groups are initialised after the public group has been touched.  The oracle is the
 independent reader pvmon.ref.ancillary (regular expressions over the embedded data,
 own evaluation of the documented form-factor expressions)."""
+import math
+import random
 import traceback
 
 from ..statemon import Reach
@@ -28,7 +30,7 @@ LEVEL_TEXT = ('Every element (Z = 0..118) and every ion charge listed for it is 
               'table rows and elements, so the only sampling is over process histories and over Q.')
 LEVEL_NOTE = ('Trusted: the regex reader pvmon/ref/ancillary.py, CPython float parsing and math.exp, the embedded strings / '
               'data file as specification (list position = Z for crystal structures, first numbered row for spin states).')
-SHARDS = {'quick': 4, 'thorough': 8}
+SHARDS = {'quick': 2, 'thorough': 4}
 ASSUMPTIONS = ['the embedded strings, the crystal_structures list in the module source (position = Z) and xsf/f0_WaasKirf.dat '
                'are the specification (their literature values are not checked; the #Sym comments of the crystal list are not '
                'trusted: slot 65 is labelled Th)',
@@ -62,7 +64,8 @@ _counter = [0]
 def _variants(ctx):
     v = ['public', 'private_fresh']
     if ctx.thorough():
-        v += ['private_late', 'private_reload', 'private_after_mutation']
+        v += ['private_late', 'private_reload', 'private_after_mutation', 'private_interleaved_a',
+              'private_interleaved_b']
     return v
 
 
@@ -159,6 +162,7 @@ def _build(ctx):
         _state['Q'] = numpy.array(grid)
         _state['np'] = numpy
         _state['load_errors'] = {}
+        _state['grids'] = {}
         _state['tables'] = {}
     tables = _state['tables']
 
@@ -182,6 +186,7 @@ def _build(ctx):
                 (cromermann._update_cmformulas, '_cmformulas[cmf.symbol] = cmf', 'rows.cromermann')):
             try:
                 reach.watch_line_matching(func, text, label)
+                _state.setdefault('row_counters', []).append(label)
             except Exception:  # noqa
                 ctx.note('row counter %s not attached (source line not found)' % label)
         reach.start()
@@ -216,6 +221,15 @@ def _build(ctx):
         T4a = _fresh(ctx, 'private_after_mutation', 'mut')
         _guard('private_after_mutation', 'scramble', lambda: _scramble(T4a, model))
         tables['private_after_mutation'] = _fresh(ctx, 'private_after_mutation', 'aftermut')
+        # two tables initialised group by group in reverse order, interleaved
+        from periodictable import core
+        T5a = core.PeriodicTable(_name(ctx, 'ilva'))
+        T5b = core.PeriodicTable(_name(ctx, 'ilvb'))
+        for g in reversed(GROUPS):
+            _guard('private_interleaved_a', g, lambda g=g: _private_init(T5a, g))
+            _guard('private_interleaved_b', g, lambda g=g: _private_init(T5b, g))
+        tables['private_interleaved_a'] = T5a
+        tables['private_interleaved_b'] = T5b
 
 
 def setup(ctx):
@@ -227,6 +241,13 @@ def setup(ctx):
     ctx.require('reach.cromermann._update_cmformulas', 1, 'the Cromer-Mann file must be parsed while observed')
     ctx.require('reach.public_first_touch_loaded_all_five', 1,
                 'each public group must be loaded by its first touch inside setup (before the private init)')
+    m = _state['model']
+    rows = {'rows.covalent_radius': 2 * len(m.radius), 'rows.crystal_structure': 2 * len(m.structure),
+            'rows.spectral_lines': 2 * len(m.lines), 'rows.magnetic_ff': 2 * m.magnetic_entries,
+            'rows.cromermann': len(m.cm)}
+    for label in _state.get('row_counters', []):
+        ctx.require('reach.' + label, rows[label],
+                    'the loader must be observed storing every row the reference reader found (public + private)')
     ctx.require('reach.magnetic_ff.formfactor_0', 1, 'j0/J evaluations must go through formfactor_0')
     ctx.require('reach.magnetic_ff.formfactor_n', 1, 'j2/j4/j6 evaluations must go through formfactor_n')
     ctx.require('reach.cromermann.atstol', 1, 'f0 evaluations must go through CromerMannFormula.atstol')
@@ -239,6 +260,12 @@ def _table(ctx, name):
     return _state['tables'][name]
 
 
+def _with_qseed(ctx, case):
+    if ctx.thorough():
+        case['qseed'] = ctx.seed
+    return case
+
+
 def generate(ctx):
     i = 0
     for variant in _variants(ctx):
@@ -249,11 +276,11 @@ def generate(ctx):
     for variant in _variants(ctx):
         for Z in range(0, 119):
             if ctx.mine(i):
-                yield 'element', {'table': variant, 'Z': Z}
+                yield 'element', _with_qseed(ctx, {'table': variant, 'Z': Z})
             i += 1
     for name in sorted(_state['model'].cm):
         if ctx.mine(i):
-            yield 'cm_entry', {'name': name}
+            yield 'cm_entry', _with_qseed(ctx, {'name': name})
         i += 1
     if ctx.shard == 0:
         yield 'coverage', {}
@@ -288,6 +315,21 @@ def _atoms(el):
     for q in el.ions:
         out.append(('ion', q, el.ion[q]))
     return out
+
+
+def _grid(case):
+    """(Q values, numpy vector, cache key): the 200-point grid over [0, 30]; cases that carry a 'qseed'
+    (thorough tier) add 150 uniform and 150 log-uniform points drawn from that seed."""
+    qseed = case.get('qseed')
+    grids = _state['grids']
+    if qseed not in grids:
+        g = list(_state['grid'])
+        if qseed is not None:
+            rng = random.Random(1000003 * int(qseed) + 20)
+            g += [rng.uniform(0.0, 30.0) for _ in range(150)]
+            g += [10 ** rng.uniform(-9.0, math.log10(30.0)) for _ in range(150)]
+        grids[qseed] = (g, _state['np'].array(g), qseed)
+    return grids[qseed]
 
 
 def _vector_ok(ctx, got, ref, name):
@@ -334,8 +376,9 @@ def check_element(ctx, case):
     _radius(ctx, tname, el, atoms)
     _structure(ctx, tname, el, atoms)
     _lines(ctx, tname, el, atoms)
-    _magnetic(ctx, tname, el, atoms)
-    _f0(ctx, tname, el, atoms)
+    G = _grid(case)
+    _magnetic(ctx, tname, el, atoms, G)
+    _f0(ctx, tname, el, atoms, G)
 
 
 def _like_radius(m, value):
@@ -428,7 +471,7 @@ def _like_magnetic(m, coeff):
     return ['%s%d %s' % (s, q, jn) for (s, q), d in m.magnetic.items() for jn, vs in d.items() if coeff in vs][:6]
 
 
-def _magnetic(ctx, tname, el, atoms):
+def _magnetic(ctx, tname, el, atoms, G):
     m = _state['model']
     sym = el.symbol
     charges = m.magnetic_charges(sym)
@@ -485,12 +528,13 @@ def _magnetic(ctx, tname, el, atoms):
                 ctx.violation('magnetic_ff[%d] of %s (via %s) is missing; CFML has %r'
                               % (q, sym, route, sorted(entry)), group='magnetic', route=route, entry=True, charge=q)
                 continue
-            _magnetic_state(ctx, sym, q, route, ff, entry)
+            _magnetic_state(ctx, sym, q, route, ff, entry, G)
 
 
-def _magnetic_state(ctx, sym, q, route, ff, entry):
+def _magnetic_state(ctx, sym, q, route, ff, entry, G):
     m = _state['model']
-    grid, Q, np = _state['grid'], _state['Q'], _state['np']
+    np = _state['np']
+    grid, Q, gkey = G
     tag = '%s%+d (via %s)' % (sym, q, route)
     for jn, order in ORDERS.items():
         c = _get(ff, jn)
@@ -519,7 +563,7 @@ def _magnetic_state(ctx, sym, q, route, ff, entry):
             ctx.violation('%s .%s is %r, CFML gives %r' % (tag, jn, c[1], want[0]), group='magnetic', route=route,
                           entry=True, charge=q, jn=jn, looks_like=_like_magnetic(m, got))
             continue
-        ref = m.magnetic_ref(got, order, grid)
+        ref = m.magnetic_ref(got, order, grid, gkey)
         # the whole grid as a numpy vector
         bad = _vector_ok(ctx, fn(Q), ref, 'magnetic_%s.err_over_terms' % ('plain' if order == 0 else 'scaled'))
         if bad is not None:
@@ -577,16 +621,17 @@ def _like_cm(ctx, got):
         g = np.asarray(got, dtype=float)
         for name in m.cm:
             ref = m.cm_ref(name, _state['grid'])
-            if g.shape == (len(ref),) and all(abs(g[i] - ref[i][0]) <= 1e-9 * ref[i][1] for i in (0, 50, 199)):
+            if g.ndim == 1 and g.shape[0] >= len(ref) and all(abs(g[i] - ref[i][0]) <= 1e-9 * ref[i][1] for i in (0, 50, 199)):
                 out.append(name)
     except Exception:  # noqa
         pass
     return out[:6]
 
 
-def _f0(ctx, tname, el, atoms):
+def _f0(ctx, tname, el, atoms, G):
     m = _state['model']
-    grid, Q, np = _state['grid'], _state['Q'], _state['np']
+    np = _state['np']
+    grid, Q, gkey = G
     for route, q, atom in atoms:
         name = m.cm_name(el.symbol, q)
         entry = m.cm.get(name)
@@ -610,7 +655,7 @@ def _f0(ctx, tname, el, atoms):
         if entry[0] != el.number:
             ctx.violation('Cromer-Mann entry %r is filed under Z=%d, %s has Z=%d' % (name, entry[0], el, el.number),
                           group='f0', route=route, entry=True, charge=q, kind='Z')
-        ref = m.cm_ref(name, grid)
+        ref = m.cm_ref(name, grid, gkey)
         bad = _vector_ok(ctx, got, ref, 'f0.err_over_terms')
         if bad is not None:
             ctx.violation('f0 of %s differs from the Cromer-Mann expression of entry %r at grid point %d (Q=%r): '
@@ -636,7 +681,8 @@ def _f0(ctx, tname, el, atoms):
 def check_cm_entry(ctx, case):
     from periodictable import cromermann
     m = _state['model']
-    grid, Q, np = _state['grid'], _state['Q'], _state['np']
+    np = _state['np']
+    grid, Q, gkey = _grid(case)
     name = case['name']
     entry = m.cm.get(name)
     if entry is None:
@@ -659,7 +705,7 @@ def check_cm_entry(ctx, case):
                           group='cm', field=field,
                           same_multiset=sorted([float(v) for v in cmf.a] + [float(v) for v in cmf.b] + [float(cmf.c)])
                           == sorted(a + b + [c]))
-    ref = m.cm_ref(name, grid)
+    ref = m.cm_ref(name, grid, gkey)
     calls = [('fxrayatq(%r, Q)' % name, lambda: cromermann.fxrayatq(name, Q)),
              ('atstol(Q/4pi)', lambda: cmf.atstol(Q / (4 * np.pi)))]
     split = m.cm_split(name)
